@@ -70,6 +70,25 @@ func loadEngine(repo string, patterns []string) (*Engine, error) {
 	return e, nil
 }
 
+// setDB installs the contract database and declares its ghost variables.
+func (e *Engine) setDB(db *ContractDB) {
+	e.db = db
+	e.usedLemmas = map[string]bool{}
+	for name, tt := range db.Ghosts {
+		switch tt {
+		case "mathint":
+			e.ghostSorts[name] = "Int"
+			e.ghostTypes[name] = mathIntT
+		case "bool":
+			e.ghostSorts[name] = "Bool"
+			e.ghostTypes[name] = boolT
+		default:
+			e.ghostSorts[name] = "Int"
+			e.ghostTypes[name] = mathIntT
+		}
+	}
+}
+
 // findFunc locates the ssa function for a contract key.
 func (e *Engine) findFunc(c *Contract) *ssa.Function {
 	p := e.spkgs[c.PkgPath]
@@ -321,16 +340,32 @@ func (e *Engine) genFunc(c *Contract, fn *ssa.Function, mode Mode, known map[str
 			}
 		}
 	}
+	// Postconditions are checked at each return point separately (simpler
+	// queries, precise models); the parts of one clause form one obligation.
 	for i, q := range c.Ensures {
-		t := e.evalBool(penv, q.Expr)
-		vc.oblige(fmt.Sprintf("post:%d", i+1), out.pc, t, "postcondition: "+q.Text)
+		for k, rst := range fr.retStates {
+			renv := e.bindResults(env, c, fn.Signature, fr.retVals[k])
+			renv.cur = rst
+			renv.old = fr.entry
+			renv.witness = e.evalWitnesses(c, fr, rst, env)
+			t := e.evalBool(renv, q.Expr)
+			name := fmt.Sprintf("post:%d", i+1)
+			if len(fr.retStates) > 1 {
+				name = fmt.Sprintf("post:%d/r%d", i+1, k+1)
+			}
+			vc.oblige(name, rst.pc, t, "postcondition: "+q.Text)
+		}
 	}
+	_ = penv
 	vc.cover("post:cover", out.pc)
 	return vc, ""
 }
 
 // assumeWF: well-formedness of parameter values (slice header sanity)
 func (e *Engine) assumeWF(t types.Type, v SV) {
+	if isTimeType(t) || t == mathIntT {
+		return
+	}
 	switch u := t.Underlying().(type) {
 	case *types.Slice:
 		s := v.(*SliceSV)
@@ -527,4 +562,25 @@ func shortStack() string {
 		}
 	}
 	return strings.Join(out, " <- ")
+}
+
+// evalWitnesses evaluates the contract's witness expressions (over locals) in a
+// return state; witnesses that are not available there are skipped.
+func (e *Engine) evalWitnesses(c *Contract, fr *Frame, st *State, base *Env) []string {
+	var out []string
+	for _, w := range c.Witnesses {
+		func() {
+			defer func() {
+				if r := recover(); r != nil {
+					e.vc.note(fmt.Sprintf("witness %q not available at a return point: %v", w.Text, r))
+				}
+			}()
+			wenv := *base
+			wenv.cur = st
+			wenv.fr = fr
+			tv := e.eval(&wenv, w.Expr)
+			out = append(out, e.toIdxTV(tv))
+		}()
+	}
+	return out
 }
